@@ -306,7 +306,7 @@ def run(chk):
     lib = S.run_sessions(binary_h, [[("J", "use prelude"), ("F", "\n".join(l))] for l, _ in std])
     jobs = []
     for l, _ in std:
-        jobs.append(("\n".join(l) + "\n", None, True))
+        jobs.append(("\n".join(l), None, True))   # same text as the joined -e input (a trailing newline would move the end-of-input span in diagnostics)
         jobs.append((None, list(l), True))
     std_res = run_many(cli, home, jobs)
     chk.notes.append("timing: toy binary runs %.1fs, model %.1fs, prelude programs (library + binary) %.1fs" % (t1 - t0, t2 - t1, time.time() - t2))
